@@ -316,6 +316,55 @@ macro_rules! pairs_for {
 }
 
 /// the pair conversion of every integer instantiation (the missing side is MIN / MAX of that very type)
+/// inclusive ranges that were (partly or wholly) iterated before the conversion: the conversion decides on the
+/// bounds the range holds at that moment, exactly as `Interval::new` does
+pub fn c14_used_ranges(out: &mut Vec<String>) {
+    fn emit<T: Elem + Copy + PartialOrd>(out: &mut Vec<String>, how: &str, r: std::ops::RangeInclusive<T>) {
+        let (a, b) = (*r.start(), *r.end());
+        out.push(format!(
+            "C14 from_range_used {} {} {} {} => {}",
+            T::TAG,
+            how,
+            a.enc(),
+            b.enc(),
+            enc_ires(&Interval::try_from(r))
+        ));
+    }
+    macro_rules! used {
+        ($t:ty, $lo:expr, $hi:expr) => {{
+            for a in $lo..=$hi {
+                for b in a..=$hi {
+                    let fresh: std::ops::RangeInclusive<$t> = a..=b;
+                    emit(out, "fresh", fresh.clone());
+                    let mut r = fresh.clone();
+                    r.next();
+                    emit(out, "next", r);
+                    let mut r = fresh.clone();
+                    r.next_back();
+                    emit(out, "next_back", r);
+                    let mut r = fresh.clone();
+                    for _ in r.by_ref() {}
+                    emit(out, "exhausted", r);
+                    let mut r = fresh.clone();
+                    while r.next_back().is_some() {}
+                    emit(out, "exhausted_back", r);
+                    let mut r = fresh.clone();
+                    r.nth(100);
+                    emit(out, "nth_beyond", r);
+                    let mut r = fresh.clone();
+                    r.nth((b - a) as usize);
+                    emit(out, "nth_last", r);
+                }
+            }
+        }};
+    }
+    used!(i64, -2i64, 3i64);
+    used!(u8, 0u8, 3u8);
+    used!(u8, 252u8, 255u8);
+    used!(i8, 125i8, 127i8);
+    used!(i8, -128i8, -126i8);
+}
+
 pub fn c14_pairs(out: &mut Vec<String>) {
     for (a, b) in [(-100i64, -3i64), (-7, 0), (-1, 1), (0, 0), (0, 5), (3, 100), (100, 127), (-128, -100)] {
         for kind in 0..3usize {
@@ -402,6 +451,26 @@ pub fn c13_unsigned(out: &mut Vec<String>, chain: &[u8], scalars: &[u8]) {
             let ej = enc_interval(j);
             out.push(format!("C13 addi u {} {} => {}", ei, ej, guarded(|| format!("ok {}", enc_interval(&(*i + *j))))));
             out.push(format!("C13 subi u {} {} => {}", ei, ej, guarded(|| format!("ok {}", enc_interval(&(*i - *j))))));
+        }
+    }
+}
+
+/// interval arithmetic over a narrow signed type (`i8`, bounds next to both ends of the range): results wider than
+/// `i8::MAX` are perfectly representable; an operation overflows only if a bound of the result does
+pub fn c13_signed(out: &mut Vec<String>, chain: &[i8], scalars: &[i8]) {
+    let ivs = all_intervals(chain);
+    for i in &ivs {
+        let ei = enc_interval(i);
+        for k in scalars {
+            out.push(format!("C13 add b {} {} => {}", ei, k, guarded(|| enc_interval(&(*i + *k)))));
+            out.push(format!("C13 sub b {} {} => {}", ei, k, guarded(|| enc_interval(&(*i - *k)))));
+            out.push(format!("C13 mul b {} {} => {}", ei, k, guarded(|| enc_interval(&(*i * *k)))));
+        }
+        out.push(format!("C13 neg b {} => {}", ei, guarded(|| enc_interval(&(-*i)))));
+        for j in &ivs {
+            let ej = enc_interval(j);
+            out.push(format!("C13 addi b {} {} => {}", ei, ej, guarded(|| format!("ok {}", enc_interval(&(*i + *j))))));
+            out.push(format!("C13 subi b {} {} => {}", ei, ej, guarded(|| format!("ok {}", enc_interval(&(*i - *j))))));
         }
     }
 }
